@@ -56,6 +56,7 @@ type Client struct {
 	closedCh   chan struct{}
 	Quiet      bool // do not log to the tracer
 	LocalAddr  string
+	CompName   string
 }
 
 var nodeRe = regexp.MustCompile(`127\.0\.\d+\.\d+`)
@@ -88,6 +89,7 @@ var errNames = map[int]string{
 }
 
 func (c *Client) setCompression(name string) {
+	c.CompName = strings.ToLower(name)
 	switch strings.ToLower(name) {
 	case "lz4":
 		c.compressor = lz4.Compressor{}
@@ -223,7 +225,8 @@ func (c *Client) Send(frm *frame.Frame, tok, class string) error {
 func (c *Client) SendBytes(b []byte, stream int, op, tok, class string) error {
 	c.wmu.Lock()
 	defer c.wmu.Unlock()
-	c.emit("ClientSend", "c", c.ID, "caddr", c.LocalAddr, "stream", stream, "op", op, "t", tok, "class", class)
+	c.emit("ClientSend", "c", c.ID, "caddr", c.LocalAddr, "stream", stream, "op", op, "t", tok, "class", class,
+		"sess", fmt.Sprintf("%d|%s", int(c.Version), c.CompName))
 	_, err := c.nc.Write(b)
 	return err
 }
